@@ -98,7 +98,7 @@ def writeOf (rel : Rel) (s : Step) (d0 : Dep) : Option Dep :=
     | some r, some e => if r = 0 then none else ctrlUpgradeBatch d0 r e
     | _, _ => none
   | .finalize => ctrlFinalize d0 s.bpNil
-  | .admit => none
+  | .submit => none
 
 theorem commit_cases (d : Dep) (w : Option Dep) (f : Fault) (obs : Option InitObs) :
     (w = none ∧ commit d w f obs = { res := .ok, dep := some d, writes := 0, obs := obs }) ∨
@@ -114,7 +114,7 @@ theorem commit_cases (d : Dep) (w : Option Dep) (f : Fault) (obs : Option InitOb
 
 /-- The five things a controller call can do. -/
 theorem ctrl_step_cases (c : Cfg) (d : Option Dep) (s : Step) (o : StepOut)
-    (hc : s.call ≠ .admit) (h : step c d s = .val o) :
+    (hc : s.call ≠ .submit) (h : step c d s = .val o) :
     (s.fault = .get ∧ o.res = .err ∧ o.dep = d ∧ o.writes = 0) ∨
     (s.fault ≠ .get ∧ d = none ∧ o.dep = none ∧ o.writes = 0 ∧ (o.res = .ok ↔ s.call = .finalize)) ∨
     (∃ d0 r, d = some d0 ∧ d0.replicas = some r ∧ s.fault ≠ .get ∧
@@ -322,7 +322,7 @@ def admitStrategy (n : Dep) (m4 : Bool) : DepStrategy :=
   setDefaultDeploymentStrategy s
 
 /-- The three things an admitted update can become. -/
-theorem admit_cases (w : World) (d : Dep) (e : Edit) (d' : Dep) (h : admit w d e = .val d') :
+theorem admit_cases (w : World) (d : Dep) (e : Edit) (d' : Dep) (h : submit w d e = .val d') :
     ((applyEdit d e).inProgress = true ∧ isPartitionStyle (getStrategy (applyEdit d e)) = true ∧ ∃ m4 : Bool,
         d' = { applyEdit d e with
                  paused := true,
@@ -336,7 +336,7 @@ theorem admit_cases (w : World) (d : Dep) (e : Edit) (d' : Dep) (h : admit w d e
     ((applyEdit d e).inProgress = false ∧
         (d' = applyEdit d e ∨
          ∃ sr, d' = { applyEdit d e with paused := true, inProgress := true, stableRev := sr })) := by
-  unfold admit at h
+  unfold submit at h
   simp only at h
   generalize applyEdit d e = n at h ⊢
   by_cases hip : n.inProgress = true
@@ -460,9 +460,9 @@ theorem step_limit (c : Cfg) (d : Dep) (r : Int) (s : Step) (o : StepOut)
     intro d' h1 h2 h3
     have := limitOf_nonneg d
     exact ⟨d', h3, h1, by rw [h2]; omega⟩
-  by_cases hc : s.call = .admit
+  by_cases hc : s.call = .submit
   · simp only [step, hc] at h
-    cases ha : admit c.world d s.edit with
+    cases ha : submit c.world d s.edit with
     | panic => rw [ha] at h; cases h
     | val d' =>
       rw [ha] at h
@@ -684,7 +684,7 @@ theorem inv_applyEdit {d : Dep} {u : RU} {e : Edit} (hu : ruValid u = true) (hi 
 
 /-- the webhook keeps the invariant (old object `d`, submitted object `n`) -/
 theorem inv_webhook {w : World} {d n d' : Dep} {u : RU} {e : Edit} (hn : n = applyEdit d e)
-    (hu : ruValid u = true) (hi : Inv n u) (h : admit w d e = .val d') : Inv d' u := by
+    (hu : ruValid u = true) (hi : Inv n u) (h : submit w d e = .val d') : Inv d' u := by
   subst hn
   rcases admit_cases w d e d' h with ⟨_, hps, m4, hd'⟩ | ⟨_, hps, hd'⟩ | ⟨_, hd' | ⟨sr, hd'⟩⟩
   · -- partition-style in-progress branch: the block moves into the annotation
